@@ -348,6 +348,8 @@ fn partial_tokens_to_tokens<NumericTypes: EvalexprNumericTypes>(
 ) -> EvalexprResult<Vec<Token<NumericTypes>>, NumericTypes> {
     let mut result = Vec::new();
     while !tokens.is_empty() {
+        #[cfg(feature = "verif-hooks")]
+        crate::verif::point(crate::verif::Site::TokenLoop);
         let first = tokens[0].clone();
         let second = tokens.get(1).cloned();
         let third = tokens.get(2).cloned();
